@@ -134,12 +134,18 @@ func catalogue() []entry {
 				// the difficulty a plausible wrong rule would ask for here (parent's bits, minimum
 				// difficulty, retarget from the other end of the period, non-retarget rule at a retarget height)
 				dtAlt := rapid.SampledFrom([]int64{1, 9, 21, 30}).Draw(c.t, "dtAlt")
-				alts := c.tr.AltBits(c.parent, c.parent.Time()+dtAlt)
-				if len(alts) == 0 {
-					return c.tr.Extend(c.parent, ce.BlockOpt{Break: "bad-bits"})
-				}
-				alt := alts[rapid.IntRange(0, len(alts)-1).Draw(c.t, "altBits")]
-				return c.tr.Extend(c.parent, ce.BlockOpt{TimeDelta: dtAlt, Mutate: func(m *wire.MsgBlock) { m.Header.Bits = alt }, Label: ce.InvalidContext, Rule: "bits-of-a-wrong-rule"})
+				k := rapid.IntRange(0, 7).Draw(c.t, "altBits")
+				parent, tr := c.parent, c.tr
+				return c.tr.Extend(c.parent, ce.BlockOpt{TimeDelta: dtAlt, Mutate: func(m *wire.MsgBlock) {
+					// alternatives for the timestamp the block really got (the first block after
+					// genesis is moved to the start time of the tree)
+					alts := tr.AltBits(parent, m.Header.Timestamp.Unix())
+					if len(alts) == 0 {
+						m.Header.Bits ^= 0x00000100
+						return
+					}
+					m.Header.Bits = alts[k%len(alts)]
+				}, Label: ce.InvalidContext, Rule: "bits-of-a-wrong-rule"})
 			case 0:
 				return c.tr.Extend(c.parent, ce.BlockOpt{Break: "bad-bits"})
 			case 1: // above the proof-of-work limit
@@ -828,7 +834,11 @@ func someTxs(c *ctx, k int) []*wire.MsgTx {
 	sp := spendableAt(c.tr, c.parent)
 	var txs []*wire.MsgTx
 	for i := 0; i < k && i < len(sp); i++ {
-		txs = append(txs, spendOne(c.parent.Utxo, sp[i], int64(rapid.IntRange(0, 500).Draw(c.t, "fee"))))
+		fee := int64(rapid.IntRange(0, 500).Draw(c.t, "fee"))
+		if v := c.parent.Utxo[sp[i]].Value; fee > v {
+			fee = v // small change outputs exist: never pay more than the coin holds
+		}
+		txs = append(txs, spendOne(c.parent.Utxo, sp[i], fee))
 	}
 	return txs
 }
